@@ -3,7 +3,7 @@
 # exit code, summary line and wall time in /verif/thorough_results.txt.
 cd /verif
 out=/verif/thorough_results.txt
-: > $out
+[ -n "$APPEND" ] || : > $out
 for p in ${@:-C01 C02 C03 C04 C05 C06 C07 C08 C09 C10 C11 C12 C13 C14 C15 C16 C17 C18 C19 C20}; do
   s=$(date +%s)
   log=$(timeout 7200 ./check $p thorough 2>&1); code=$?
